@@ -7,6 +7,7 @@ from pydiverse.common import (
     Date,
     Datetime,
     Float,
+    Int,
     String,
 )
 from pydiverse.transform._internal.backend.sql import SqlImpl
@@ -193,6 +194,17 @@ with SqliteImpl.impl_store.impl_manager as impl:
     @impl(ops.floor)
     def _floor(x):
         return -sqa.func.ceil(-x)
+
+    # SQLAlchemy types the division of two integers as Numeric, which is exported as a
+    # decimal
+    @impl(ops.truediv, Int(), Int())
+    @impl(ops.truediv, Float(), Float())
+    def _truediv(x, y):
+        if not isinstance(x.type, sqa.Float):
+            x = sqa.cast(x, sqa.Double)
+        if not isinstance(y.type, sqa.Float):
+            y = sqa.cast(y, sqa.Double)
+        return x / y
 
     # SQLite stores NaN as NULL, so a non-null value is never NaN
     @impl(ops.is_nan)
